@@ -48,8 +48,9 @@ def enable(scope=None):
         return
 
     if os.path.exists(gitattributes):
-        with io.open(gitattributes, encoding="utf8") as f:
-            if 'diff=jupyternotebook' in f.read():
+        # (read as bytes: git does not require the file to be UTF-8)
+        with io.open(gitattributes, 'rb') as f:
+            if b'diff=jupyternotebook' in f.read():
                 # already written, nothing to do
                 return
     else:
